@@ -387,7 +387,8 @@ lib.SPECIAL['handler_accepts'] = _sp1(lambda eng, st, h, n: vbool(accepts(h.t, n
 
 def _dict_del(eng, st, d, k):
     dom, mp = d.t
-    return V(d.ty, (z3.Store(dom, k.t, False), mp))
+    return V(d.ty, (z3.Store(dom, k.t, False),
+                    z3.Store(mp, k.t, eng.default_term(mp.sort().range()))))
 
 
 lib.SPECIAL['dict_del'] = _sp1(_dict_del)
